@@ -326,8 +326,9 @@ func init() {
 			"Oracle: an independent code-point state-machine implementation of CSS Syntax 3 (preprocessing, tokenizer, component-value nesting, consume-a-list-of-rules/declarations, at-rule, qualified rule, declaration with !important, block contents) with tinycss2's three documented deviations (unicode-range token, match operators and || as single literals, <!-- --> literals); " +
 			"compared on token type, unescaped value, numeric repr/value/integer flag, unit, hash id flag, string/url EOF flags, error-token kind, nesting, source position (line, byte column of the preprocessed text), and per rule/declaration: kind, name, prelude, content, value (outer white space trimmed), important, position. " +
 			"Not judged (counted as excluded): rule-level entries when tokens already differ; declarations mixing a {} block with later values or several '!' (Level 3 2021 and the current draft differ). " +
+			"Entry nth: 1-5 atoms (n, -n, n-, 2n, n-1, signs, integers with and without sign, odd / even, white space, comments, non-integers, an escaped n) concatenated; ParseNth must agree with a reference reading of the An+B micro-syntax (accept / refuse and both values). " +
 			"Non-trivial: the text holds an escape, string, url, exponent number, block/function, unicode-range or an error token.",
-		ImportantLabels: []string{"entry:tokenize", "entry:stylesheet", "entry:blocks", "entry:decllist", "tok:error", "tok:url", "has-escape", "item:error", "item:qualified", "item:decl"},
+		ImportantLabels: []string{"entry:nth", "entry:tokenize", "entry:stylesheet", "entry:blocks", "entry:decllist", "tok:error", "tok:url", "has-escape", "item:error", "item:qualified", "item:decl"},
 		Assumptions: []string{"source positions are not defined by CSS Syntax; the convention the code documents is used (1-based line, column = 1 + bytes since the last newline of the preprocessed text)",
 			"parse errors that tinycss2's design does not represent as tokens (EOF in comment/block, stray backslash) are not demanded"},
 	})
